@@ -3,6 +3,7 @@
 package kcp
 
 import (
+	"encoding/binary"
 	"fmt"
 	"sort"
 	"testing"
@@ -98,7 +99,73 @@ func TestVerifC05(t *testing.T) {
 			return p
 		},
 		nontriv: func(info coreCaseInfo, s *coreSim) bool { return info.forged },
+		directed: func(t *testing.T, lg *vlog, rep *vreport, rng *vrng) int {
+			n := 3
+			if vThorough() {
+				n = 20
+			}
+			for i := 0; i < n; i++ {
+				runDeadLinkCase(lg, rep, rng)
+			}
+			return n
+		},
 	})
+}
+
+// runDeadLinkCase: "at any point in the life of a session" includes the end of it - a link declared
+// dead (a segment transmitted dead_link times into the void) whose peer then comes back and keeps
+// sending.  The bounds of C04/C05 (pending acknowledgements included) hold there as anywhere else.
+func runDeadLinkCase(lg *vlog, rep *vreport, rng *vrng) {
+	cfg := genCoreCfg(rng, defaultProfile())
+	s := newCoreSim(cfg, lg, rep)
+	s.Send(0, rng.bytes(1+rng.intn(int(s.k[0].mss))))
+	for i := 0; i < 400 && s.k[0].state == 0 && !s.dead; i++ {
+		s.setNow(s.now + 61000) // beyond any retransmission timer: every flush retransmits, nothing is delivered
+		s.Flush(0, true)
+		s.pend[0] = nil
+	}
+	if s.dead {
+		return
+	}
+	rep.Distribution["profile:dead-link"]++
+	if s.k[0].state != 0 {
+		rep.Nontrivial++
+		rep.Distribution["dead-link-reached"]++
+	}
+	// the peer comes back: in-window and duplicate PUSH segments, 20 per datagram, with the session's
+	// periodic flush in between
+	k := s.k[0]
+	for round := 0; round < 120 && !s.dead; round++ {
+		var d []byte
+		for j := 0; j < 20; j++ {
+			sn := k.rcv_nxt + uint32(1+rng.intn(int(k.rcv_wnd)-1))
+			seg := make([]byte, IKCP_OVERHEAD+1)
+			binary.LittleEndian.PutUint32(seg, cfg.Conv)
+			seg[4], seg[5] = IKCP_CMD_PUSH, 0
+			binary.LittleEndian.PutUint16(seg[6:], 32)
+			binary.LittleEndian.PutUint32(seg[8:], s.now)
+			binary.LittleEndian.PutUint32(seg[12:], sn)
+			binary.LittleEndian.PutUint32(seg[16:], k.snd_una)
+			binary.LittleEndian.PutUint32(seg[20:], 1)
+			seg[24] = byte(sn)
+			d = append(d, seg...)
+		}
+		if len(d) > int(k.mtu) {
+			d = d[:int(k.mtu)/(IKCP_OVERHEAD+1)*(IKCP_OVERHEAD+1)]
+		}
+		s.Input(0, d, true, rng.chance(50))
+		s.pend[0] = nil
+		if round%3 == 2 {
+			s.setNow(s.now + uint32(cfg.Interval[0]))
+			s.Flush(0, true)
+			s.pend[0] = nil
+		}
+	}
+	if !s.dead {
+		s.end()
+	}
+	s.mergeStats()
+	rep.Steps += len(s.ops)
 }
 
 // C10 - output sizes, SetMtu at any point.
